@@ -231,9 +231,17 @@ def aggKind : Agg → Kind → Option Kind
   | .mean, .dt => some .dt
   | .mean, .obj => none
   | .any, .dt => none
+  | .any, .obj => none
   | .any, _ => some .bool
   | .all, .dt => none
+  | .all, .obj => none
   | .all, _ => some .bool
+
+def isNumeric : Kind → Bool
+  | .int => true
+  | .float => true
+  | .bool => true
+  | _ => false
 
 /-- kind of the Series `df.f()` over no column at all -/
 def emptyKind : Agg → Kind
@@ -245,8 +253,7 @@ def emptyKind : Agg → Kind
 
 def joinKinds : List Kind → Option Kind
   | [] => none
-  | [k] => some k
-  | k :: ks => (joinKinds ks).map (Kind.join k)
+  | k :: ks => some (ks.foldl Kind.join k)
 
 def allSome : List (Option Kind) → Option (List Kind)
   | [] => some []
@@ -395,73 +402,99 @@ def semiRight (m : MergeP) : Sch → Sch
     | none => .bad
   | _ => .bad
 
+/-- the kind of a column stacked from the inputs that have it -/
+def joinOr (ks : List Kind) : Kind :=
+  match joinKinds ks with
+  | some k => k
+  | none => .obj
+
+def stackKind (frames : List (List Col)) (c : Name) : Kind := joinOr (frames.filterMap (fun f => f.lookup c))
+
+/-- first-seen order of the union of the labels -/
+def unionNames (frames : List (List Col)) : List Name :=
+  (frames.map labels).flatten.foldl (fun acc c => if acc.contains c then acc else acc ++ [c]) []
+
 /-- union of the columns in first-seen order; a column missing in some frame acquires missing values -/
 def unionCols (frames : List (List Col)) : List Col :=
-  let names := (frames.map labels).flatten.foldl (fun acc c => if acc.contains c then acc else acc ++ [c]) []
-  names.map (fun c =>
-    let ks := frames.filterMap (fun f => f.lookup c)
-    let k := match joinKinds ks with | some k => k | none => .obj
-    (c, if frames.all (fun f => (labels f).contains c) then k else k.na))
+  (unionNames frames).map (fun c =>
+    (c, if frames.all (fun f => (labels f).contains c) then stackKind frames c else (stackKind frames c).na))
 
+/-- the columns of the first frame that every frame has -/
 def interCols (frames : List (List Col)) : List Col :=
   match frames with
   | [] => []
   | f :: fs =>
-    (f.filter (fun c => fs.all (fun g => (labels g).contains c.1))).map (fun c =>
-      let ks := (f :: fs).filterMap (fun g => g.lookup c.1)
-      (c.1, match joinKinds ks with | some k => k | none => .obj))
+    (f.filter (fun c => fs.all (fun g => (labels g).contains c.1))).map (fun c => (c.1, stackKind (f :: fs) c.1))
 
-/-- the common index of a row-wise concat: level names survive only where all inputs agree -/
+/-- columns of `pd.concat(frames, axis=0, join=…)`: identical label lists are kept as they are (no re-indexing) -/
+def rowCols (inner : Bool) : List (List Col) → List Col
+  | [] => []
+  | f :: fs =>
+    if fs.all (fun g => labels g == labels f) then f.map (fun c => (c.1, stackKind (f :: fs) c.1))
+    else if inner then interCols (f :: fs) else unionCols (f :: fs)
+
+/-- two index levels stacked: the name survives where both agree -/
+def mergeLvl (a b : Lvl) : Lvl := (if a.1 == b.1 then a.1 else none, Kind.join a.2 b.2)
+
+/-- the common index of a row-wise concat, level by level (inputs with different numbers of levels are outside the
+    model: the shorter length wins here) -/
 def commonIdx : List (List Lvl) → List Lvl
   | [] => rangeIdx
-  | i :: is =>
-    if is.all (fun j => j.length == i.length) then
-      (List.range i.length).zip i |>.map (fun nl =>
-        let others := is.filterMap (fun j => j[nl.1]?)
-        let name := if others.all (fun l => l.1 == nl.2.1) then nl.2.1 else none
-        let k := match joinKinds (nl.2.2 :: others.map (·.2)) with | some k => k | none => .obj
-        (name, k))
-    else rangeIdx
+  | i :: is => is.foldl (List.zipWith mergeLvl) i
 
-def seriesName (names : List (Option Name)) : Option Name :=
-  match names with
+def seriesName : List (Option Name) → Option Name
   | [] => none
   | n :: ns => if ns.all (· == n) then n else none
 
+def frameParts : List Sch → Option (List (List Col × List Lvl))
+  | [] => some []
+  | .frame c i :: t => (frameParts t).map ((c, i) :: ·)
+  | _ :: _ => none
+
+def seriesParts : List Sch → Option (List (Option Name × Kind × List Lvl))
+  | [] => some []
+  | .series n k i :: t => (seriesParts t).map ((n, k, i) :: ·)
+  | _ :: _ => none
+
 /-- `pd.concat(objs, axis=0, join=…)` of frames (or of series) -/
 def pConcatRows (inner : Bool) (objs : List Sch) : Sch :=
-  let frames := objs.filterMap (fun s => match s with | .frame c i => some (c, i) | _ => none)
-  let sers := objs.filterMap (fun s => match s with | .series n k i => some (n, k, i) | _ => none)
   if objs.isEmpty then .bad
-  else if frames.length = objs.length then
-    let cs := frames.map (·.1)
-    let cols := if cs.all (fun c => labels c == labels (cs.headD [])) && !inner then
-        -- identical label lists: kept as they are (no re-indexing)
-        (cs.headD []).map (fun c => (c.1, match joinKinds (cs.filterMap (fun f => f.lookup c.1)) with | some k => k | none => .obj))
-      else if inner then interCols cs else unionCols cs
-    .frame cols (commonIdx (frames.map (·.2)))
-  else if sers.length = objs.length then
-    let k := match joinKinds (sers.map (·.2.1)) with | some k => k | none => .obj
-    .series (seriesName (sers.map (·.1))) k (commonIdx (sers.map (·.2.2)))
-  else .bad
+  else match frameParts objs with
+    | some fr => .frame (rowCols inner (fr.map (·.1))) (commonIdx (fr.map (·.2)))
+    | none =>
+      match seriesParts objs with
+      | some sr =>
+        .series (seriesName (sr.map (·.1)))
+          (joinOr (sr.map (·.2.1))) (commonIdx (sr.map (·.2.2)))
+      | none => .bad
 
-/-- `pd.concat(frames, axis=1)` of frames on one common index -/
+/-- `pd.concat(frames, axis=1)` of frames: side by side on one common index; inputs whose index levels differ do not
+    align (every column acquires missing values) -/
 def pConcatCols (objs : List Sch) : Sch :=
-  let frames := objs.filterMap (fun s => match s with | .frame c i => some (c, i) | _ => none)
-  if objs.isEmpty || frames.length != objs.length then .bad
-  else .frame (frames.map (·.1)).flatten (commonIdx (frames.map (·.2)))
+  if objs.isEmpty then .bad
+  else match frameParts objs with
+    | some fr =>
+      let cols := (fr.map (·.1)).flatten
+      let idxs := fr.map (·.2)
+      if idxs.all (· == idxs.headD []) then .frame cols (idxs.headD [])
+      else .frame (cols.map (fun c => (c.1, c.2.na))) (commonIdx idxs)
+    | none => .bad
 
 /-- `df.astype({c: meta[c].dtype …})` over the columns shared with `meta` (`Concat._lower`) -/
 def castTo (mcols : List Col) (cols : List Col) : List Col :=
   cols.map (fun c => match mcols.lookup c.1 with | some k => (c.1, k) | none => c)
+
+/-- kind of a declared column after stacking a partition that has / lacks it -/
+def fillKind (declared : Kind) : Option Kind → Kind
+  | some k => Kind.join declared k
+  | none => declared.na
 
 /-- `methods.concat([meta, part], axis=0, join)` of `StackPartition` (the declared, empty `meta` first): the
     result has the columns of `meta`; a column the partition lacks is filled with missing values -/
 def pStack (m part : Sch) : Sch :=
   match m, part with
   | .frame mc mi, .frame pc pi =>
-    .frame (mc.map (fun c => (c.1, match pc.lookup c.1 with | some k => Kind.join c.2 k | none => c.2.na)))
-      (commonIdx [mi, pi])
+    .frame (mc.map (fun c => (c.1, fillKind c.2 (pc.lookup c.1)))) (commonIdx [mi, pi])
   | .series mn mk mi, .series pn pk pi => .series (seriesName [mn, pn]) (Kind.join mk pk) (commonIdx [mi, pi])
   | _, _ => .bad
 
@@ -525,9 +558,16 @@ def isReduction : Agg → Bool
   | .size => false
   | _ => true
 
+/-- `.astype("int64")` of `Count.reduction_aggregate` -/
+def castCount (f : Agg) : Sch → Sch
+  | .frame cols idx => if f = .count then .frame (cols.map (fun c => (c.1, Kind.int))) idx else .frame cols idx
+  | .series n k idx => if f = .count then .series n .int idx else .series n k idx
+  | .scalar k => if f = .count then .scalar .int else .scalar k
+  | s => s
+
 def redChunk (f : Agg) (s : Sch) : Sch := redStep f s
-def redCombine (f : Agg) (inputs : List Sch) : Sch := redStep (redSecond f) (uConcat inputs)
-def redAggregate (f : Agg) (inputs : List Sch) : Sch := redFinal (redSecond f) (uConcat inputs)
+def redCombine (f : Agg) (inputs : List Sch) : Sch := castCount f (redStep (redSecond f) (uConcat inputs))
+def redAggregate (f : Agg) (inputs : List Sch) : Sch := castCount f (redFinal (redSecond f) (uConcat inputs))
 
 /-- `Reduction._meta` (`Mean` overrides it with pandas' own `mean` on the stand-in) -/
 def declReduce (f : Agg) (s : Sch) : Sch :=
@@ -543,15 +583,15 @@ def taskReduce (f : Agg) (rt : Rt) (s : Sch) : Sch :=
          (treeReduce (redChunk .count) (redCombine .count) (redAggregate .count) rt s)
   else treeReduce (redChunk f) (redCombine f) (redAggregate f) rt s
 
-/-- `Mean` of datetime columns: declared through pandas' `mean`, computed through `sum`, which pandas refuses -/
-def noDt : Sch → Bool
-  | .frame cols _ => cols.all (fun c => c.2 != .dt)
-  | .series _ k _ => k != .dt
+/-- `Mean`: declared through pandas' own `mean`, computed through `sum` / `count`.  The two agree on numeric
+    columns; on datetime columns pandas has a mean but no sum (the computation raises) -/
+def allNumeric : Sch → Bool
+  | .frame cols _ => cols.all (fun c => isNumeric c.2)
+  | .series _ k _ => isNumeric k
   | _ => true
 
-/-- mean of an empty selection: pandas says float, sum/count says float/int → fine; of object columns both raise -/
 def guardReduce (f : Agg) (s : Sch) : Bool :=
-  if f = .mean then noDt s else true
+  if f = .mean then allNumeric s else true
 
 /-! #### groupby aggregations (`SingleAggregation`, `Mean`) over column keys -/
 
@@ -560,12 +600,6 @@ def gbSecond : Agg → Agg
   | .count => .sum
   | .size => .sum
   | f => f
-
-def isNumeric : Kind → Bool
-  | .int => true
-  | .float => true
-  | .bool => true
-  | _ => false
 
 /-- `_mean_chunk`: `g.sum(numeric_only=True)` next to the counts of the same columns renamed `c + "-count"` -/
 def meanChunk (keys : List Name) : Sch → Sch
@@ -742,12 +776,20 @@ def hasLabel (l : Name) : Sch → Bool
   | .frame cols _ => (labels cols).contains l
   | _ => false
 
+def nodupLabels : Sch → Bool
+  | .frame cols _ => decide (labels cols).Nodup
+  | _ => true
+
+/-- a frame can go through a shuffle unharmed: the helper column `_partitions` does not clash with a column of the
+    user, and the projection that removes it again finds every column once -/
+def shuffleSafe (s : Sch) : Bool := !hasLabel "_partitions" s && nodupLabels s
+
 /-- the side condition under which the partitions carry the declared schema -/
 def guardU (op : UOp) (rt : Rt) (s : Sch) : Bool :=
   match op with
   | .getCols _ => (match s with | .scalar _ => false | _ => true)
   | .getCol _ => (match s with | .index _ => false | _ => true)
-  | .setIndex _ _ => rt.path = 0 || !hasLabel "_partitions" s
+  | .setIndex _ _ => rt.path = 0 || shuffleSafe s
   | .index => (match s with | .index _ => false | .scalar _ => false | _ => true)
   | .reduce f => guardReduce f s
   | _ => true
@@ -775,7 +817,7 @@ def taskMerge (m : MergeP) (rt : Rt) (mt : Sch) (l r : Sch) : Sch :=
   else out
 
 def guardMerge (rt : Rt) (l r : Sch) : Bool :=
-  rt.path = 0 || (!hasLabel "_partitions" l && !hasLabel "_partitions" r)
+  rt.path = 0 || (shuffleSafe l && shuffleSafe r)
 
 /-! #### Concat -/
 
@@ -788,12 +830,14 @@ def declConcat (axis1 inner : Bool) (ss : List Sch) : Sch :=
   let used := ss.filter hasColumns
   if axis1 then pConcatCols used else pConcatRows inner used
 
-/-- `check_meta(df._meta, self._meta)` of `StackPartition._layer` followed by `check_matching_columns`:
-    same container, same labels in the same order (dtypes were aligned by `Concat._lower`) -/
+def lvlNames (i : List Lvl) : List (Option Name) := i.map (·.1)
+
+/-- `StackPartition._layer`: `check_meta(df._meta, self._meta)` (same container, same labels in the same order —
+    dtypes were aligned by `Concat._lower`) and equal index names and series name -/
 def checkMeta (part m : Sch) : Bool :=
   match part, m with
-  | .frame pc _, .frame mc _ => labels pc == labels mc
-  | .series _ _ _, .series _ _ _ => true
+  | .frame pc pi, .frame mc mi => labels pc == labels mc && lvlNames pi == lvlNames mi
+  | .series pn _ pi, .series mn _ mi => pn == mn && lvlNames pi == lvlNames mi
   | _, _ => false
 
 /-- `AsType(df, {shared columns whose dtype differs: meta dtype})` -/
@@ -813,24 +857,19 @@ def taskConcat (axis1 inner : Bool) (rt : Rt) (m : Sch) (ss : List Sch) : Sch :=
       let part := castPart m s
       if checkMeta part m then part else pStack m part
 
-def idxNames : Sch → List (Option Name)
-  | .frame _ i => i.map (·.1)
-  | .series _ _ i => i.map (·.1)
-  | .index l => l.map (·.1)
-  | _ => []
+def lvlKinds (i : List Lvl) : List Kind := i.map (·.2)
 
-def serName : Sch → Option Name
-  | .series n _ _ => n
-  | _ => none
+/-- a partition passed through unchanged keeps the kind of its own index -/
+def idxKindsOk (m s : Sch) : Bool :=
+  match m, s with
+  | .frame _ mi, .frame _ si => lvlKinds mi == lvlKinds si
+  | .series _ _ mi, .series _ _ si => lvlKinds mi == lvlKinds si
+  | _, _ => true
 
-/-- a partition passed through unchanged keeps its own index / series name and index kind -/
+/-- frames without columns are ignored by `_meta` but not by the tasks; the declared labels are duplicate-free -/
 def guardConcat (axis1 : Bool) (m : Sch) (ss : List Sch) : Bool :=
   if axis1 then ss.all hasColumns
-  else ss.all (fun s => hasColumns s &&
-    (match m, s with
-     | .frame _ mi, .frame _ si => mi == si
-     | .series mn _ mi, .series sn _ si => mi == si && mn == sn
-     | _, _ => true))
+  else nodupLabels m && ss.all (fun s => hasColumns s && idxKindsOk m s)
 
 /-! ## 4. expression trees -/
 
@@ -866,6 +905,46 @@ def compT : Tree → Sch
 def compTs : List Tree → List Sch
   | [] => []
   | t :: ts => compT t :: compTs ts
+end
+
+/-! ## 6. "up to pandas' promotion" -/
+
+def colsPromote : List Col → List Col → Prop
+  | [], [] => True
+  | d :: ds, c :: cs => d.1 = c.1 ∧ Kind.promotes d.2 c.2 ∧ colsPromote ds cs
+  | _, _ => False
+
+def lvlsPromote : List Lvl → List Lvl → Prop
+  | [], [] => True
+  | d :: ds, c :: cs => d.1 = c.1 ∧ Kind.promotes d.2 c.2 ∧ lvlsPromote ds cs
+  | _, _ => False
+
+/-- the comparison of the property: same container, labels, order and names; kinds up to the promotion of
+    integer / boolean columns that acquired missing values -/
+def SchPromotes : Sch → Sch → Prop
+  | .frame dc di, .frame cc ci => colsPromote dc cc ∧ lvlsPromote di ci
+  | .series dn dk di, .series cn ck ci => dn = cn ∧ Kind.promotes dk ck ∧ lvlsPromote di ci
+  | .index d, .index c => lvlsPromote d c
+  | .scalar dk, .scalar ck => Kind.promotes dk ck
+  | .bad, .bad => True
+  | _, _ => False
+
+/-- the columns `w` acquire missing values (unmatched rows of an outer / left / right join, rows of an input that
+    lacks the column) -/
+def naCols (w : Name → Bool) (cols : List Col) : List Col :=
+  cols.map (fun c => if w c.1 then (c.1, c.2.na) else c)
+
+mutual
+/-- the same query with another run-time shape (partition counts, tree depth, lowering path, which partition) -/
+def mapRt (g : Rt → Rt) : Tree → Tree
+  | .src s => .src s
+  | .un op rt t => .un op (g rt) (mapRt g t)
+  | .assign c t v => .assign c (mapRt g t) (mapRt g v)
+  | .merge m rt l r => .merge m (g rt) (mapRt g l) (mapRt g r)
+  | .concat a i rt ts => .concat a i (g rt) (mapRts g ts)
+def mapRts (g : Rt → Rt) : List Tree → List Tree
+  | [] => []
+  | t :: ts => mapRt g t :: mapRts g ts
 end
 
 mutual
